@@ -57,9 +57,16 @@ def check_not_cue(chk: Check, case: dict, seed: int):
     work = tlc.scratch_dir("c17n_")
     try:
         base = cue.render(case["canonical"], 0, seed)
+        ascii_text = "".join(base).encode("ascii")
         variants = {
             "no_file_line": [l for l in base if not l.upper().lstrip().startswith("FILE")],
-            "non_ascii": None,
+            # not ASCII, in every way a text file can be not ASCII: a lone high byte (Latin-1), well-formed UTF-8 in a remark and
+            # in a title, a UTF-8 byte-order mark, UTF-16
+            "non_ascii": ascii_text.replace(b"\n", b"\nREM caf\xe9\n", 1),
+            "utf8_remark": ascii_text.replace(b"\n", b"\nREM \xc2\xa9 caf\xc3\xa9\n", 1),
+            "utf8_title": ascii_text.replace(b"INDEX", b'TITLE "caf\xc3\xa9"\n    INDEX', 1) if b"INDEX" in ascii_text else ascii_text + b'REM \xc3\xa9\n',
+            "utf8_bom": b"\xef\xbb\xbf" + ascii_text,
+            "utf16": "".join(base).encode("utf-16"),
         }
         for tag, lines in variants.items():
             d = os.path.join(work, tag)
@@ -67,10 +74,9 @@ def check_not_cue(chk: Check, case: dict, seed: int):
             with open(os.path.join(d, "image.bin"), "wb") as fh:
                 fh.write(cue.bin_bytes(case["binlen"], seed))
             p = os.path.join(d, "image.cue")
-            if lines is None:
-                raw = "".join(base).encode("ascii").replace(b"\n", b"\nREM caf\xe9\n", 1)
+            if isinstance(lines, bytes):
                 with open(p, "wb") as fh:
-                    fh.write(raw)
+                    fh.write(lines)
             else:
                 with open(p, "w", newline="") as fh:
                     fh.writelines(lines)
